@@ -122,7 +122,7 @@ def close(a, b, tol=1e-9):
 
 # ----------------------------------------------------------------------------- generation
 
-PALETTES = ("ties", "distinct", "float", "neg", "huge", "hard", "bigbase", "bin", "int62", "dec", "inf")
+PALETTES = ("ties", "distinct", "float", "neg", "huge", "hard", "bigbase", "bin", "int62", "dec", "inf", "bigmix")
 
 
 def draw_cost(rng, palette, hard_value=10000):
@@ -141,6 +141,9 @@ def draw_cost(rng, palette, hard_value=10000):
     if palette == "int62":
         # integers that fit a signed 64-bit word while sums of two or three of them do not
         return rng.choice([2 ** 62 + rng.randint(0, 5), 2 ** 62 - rng.randint(0, 5), rng.randint(0, 5), 2 ** 61 + rng.randint(0, 5)])
+    if palette == "bigmix":
+        # avoidable big penalties next to small costs: gains of about 1e12 that differ by a few units
+        return rng.choice([rng.randint(0, 9), rng.randint(0, 9), 10 ** 12 + rng.randint(0, 9)])
     if palette == "inf":
         # hard constraints written with an infinite cost (gains can then be inf - inf = nan)
         return rng.choice([0, 0, 1, 2, float("inf")])
